@@ -160,3 +160,23 @@ Proof. intros bs H. exact (encode_string_raw bs H). Qed.
 (* the two spellings of a byte list mean the same wherever a list of elements is expected *)
 Lemma elems_of_bytes : forall bs, elems_of (VBytes bs) = elems_of (VList (map byte_val bs)).
 Proof. reflexivity. Qed.
+
+(* ---- decoding is sound by construction: an accepted byte string is the encoding of the result ---- *)
+Lemma bytes_eqb_eq : forall a b, bytes_eqb a b = true -> a = b.
+Proof.
+  induction a as [|x r IH]; intros [|y r2] H; simpl in H; try discriminate; [reflexivity|].
+  apply andb_true_iff in H as [H1 H2]. apply Ascii.eqb_eq in H1. apply IH in H2. congruence.
+Qed.
+
+Theorem decode_sound : forall t bs v, arc4_decode t bs = Some v -> arc4_encode t v = Some bs.
+Proof.
+  intros t bs v H. unfold arc4_decode in H.
+  apply obind_some in H as [v' [_ H]].
+  destruct (arc4_encode t v') as [bs'|] eqn:E; [|discriminate H].
+  destruct (bytes_eqb bs' bs) eqn:Eb; [|discriminate H].
+  injection H as <-. apply bytes_eqb_eq in Eb. congruence.
+Qed.
+
+(* hence every decoded value is well-typed *)
+Corollary decode_typed : forall t bs v, arc4_decode t bs = Some v -> val_has_type t v = true.
+Proof. intros t bs v H. eapply encode_typed. apply decode_sound. exact H. Qed.
